@@ -209,11 +209,29 @@ type Poison struct{ why string }
 // redirects: environment entry points that a harness may model in Go. The symbolic run calls the
 // harness function instead of the real one; the native replay rewrites the same call sites in an
 // overlay copy of the package sources (replay.go), so both runs use the same model.
-var redirects = map[string]string{
-	"net.ListenPacket": "verifListenPacket",
-	"net.ListenTCP":    "verifListenTCP",
-	"os.ReadFile":      "verifReadFile",
+type redirect struct {
+	ssaName string // full name of the real function
+	srcText string // call text in the repository sources
+	target  string // harness function (in a repo package)
+	keep    string // line appended to a rewritten file so the import stays used
 }
+
+var redirectList = []redirect{
+	{"net.ListenPacket", "net.ListenPacket(", "verifListenPacket", ""},
+	{"os.ReadFile", "os.ReadFile(", "verifReadFile", ""},
+	{"gopkg.in/yaml.v3.Unmarshal", "yaml.Unmarshal(", "verifYAMLUnmarshal", "var _ = yaml.Unmarshal"},
+	{"(*github.com/Jigsaw-Code/outline-sdk/transport.TCPDialer).DialStream", "", "", ""},
+}
+
+var redirects = func() map[string]string {
+	m := map[string]string{}
+	for _, r := range redirectList {
+		if r.target != "" {
+			m[r.ssaName] = r.target
+		}
+	}
+	return m
+}()
 
 func (e *Exec) global(g *ssa.Global) *Cell {
 	if c, ok := e.globals[g]; ok {
